@@ -774,3 +774,113 @@ def check_wiring(facts):
             r.fail("unicode_property_from_str consults string properties only when unicode_sets",
                    "string property lookup is not guarded by the unicode_sets parameter", facts.loc(uf))
     return r
+
+
+# ---- STRIDE ------------------------------------------------------------------------------------
+
+def check_stride(facts):
+    """FoldRange::add_delta applies the delta unconditionally; only FoldRange::apply tests the stride predicate.
+    Any other caller must either be on the `modulo == 1` edge (every code point of the range transforms) or pass a
+    code point that is stride-aligned by construction: every definition of the argument is base + (.. % modulo)
+    arithmetic or a step of exactly `modulo` from an aligned value."""
+    r = RuleResult("STRIDE", "case tables mark ranges where only every 2nd/4th code point folds (stride mask); FoldRange::apply checks the "
+                             "stride, FoldRange::add_delta does not. Every call of add_delta outside apply/transformed_to must be dominated by "
+                             "the `modulo == 1` edge or receive a stride-aligned code point (defined only by `x + (.. % modulo)` or by adding "
+                             "`modulo` to an aligned value)")
+    EXEMPT = {"unicode::FoldRange::apply": "tests the predicate itself",
+              "unicode::FoldRange::transformed_to": "interval of images of the range ends, used only for overlap tests (an over-approximation)"}
+    n = 0
+    for fn in sorted(facts.body_names()):
+        if not fn.startswith("unicode::") or "::tests::" in fn:
+            continue
+        b = facts.body(fn)
+        calls = [(bb, t) for bb, t in b.iter_calls() if (t.get("callee") or "") == "unicode::FoldRange::add_delta"]
+        if not calls:
+            continue
+        base = re.sub(r"::\{closure#\d+\}", "", fn)
+        if base in EXEMPT:
+            r.ok("%s add_delta" % fn, "exempt: " + EXEMPT[base], nontrivial=False)
+            continue
+        # the local holding `modulo`: defined as predicate_mask() + 1
+        mod_l = None
+        for l, d in enumerate(b.locals):
+            for df in b.defs().get(l, []):
+                if df[2] == "assign" and df[3]["rv"]["k"] == "bin" and df[3]["rv"]["op"].startswith("Add") and df[3]["rv"]["b"].get("int") == 1:
+                    a = df[3]["rv"]["a"]
+                    dd = b.single_def(a["pl"]["l"]) if a["k"] in ("copy", "move") else None
+                    if dd and dd[2] == "call" and (dd[3].get("callee") or "").endswith("predicate_mask"):
+                        mod_l = l
+
+        def is_mod(op):
+            return op["k"] in ("copy", "move") and mod_l is not None and b.root_of(op["pl"]["l"])[0] == mod_l
+
+        def has_rem_by_mod(l, depth=0):
+            if depth > 8:
+                return False
+            for df in b.defs().get(l, []):
+                if df[2] != "assign":
+                    continue
+                rv = df[3]["rv"]
+                if rv["k"] == "bin" and rv["op"] == "Rem" and is_mod(rv["b"]):
+                    return True
+                for k in ("op", "a", "b"):
+                    o = rv.get(k)
+                    if isinstance(o, dict) and o.get("k") in ("copy", "move") and has_rem_by_mod(o["pl"]["l"], depth + 1):
+                        return True
+            return False
+
+        def aligned(l, seen=None):
+            seen = seen or set()
+            if l in seen:
+                return True
+            seen = seen | {l}
+            defs = b.defs().get(l, [])
+            if not defs:
+                return False
+            for df in defs:
+                if df[2] != "assign":
+                    return False
+                rv = df[3]["rv"]
+                if rv["k"] == "use" and rv["op"]["k"] in ("copy", "move") and not rv["op"]["pl"]["p"]:
+                    if not aligned(rv["op"]["pl"]["l"], seen):
+                        return False
+                elif rv["k"] == "bin" and rv["op"].startswith("Add"):
+                    a, bb_ = rv["a"], rv["b"]
+                    if is_mod(bb_) and a["k"] in ("copy", "move") and aligned(a["pl"]["l"], seen):
+                        continue
+                    if bb_["k"] in ("copy", "move") and has_rem_by_mod(bb_["pl"]["l"]):
+                        continue
+                    return False
+                else:
+                    return False
+            return True
+        for bb, t in calls:
+            n += 1
+            key = "%s add_delta(line-order #%d)" % (fn, [c[0] for c in calls].index(bb) + 1)
+            # (a) modulo == 1 edge
+            ok = None
+            for d in b.dom()[bb]:
+                tt = b.blocks[d]["t"]
+                if tt["k"] == "switch" and tt["discr"]["k"] in ("copy", "move"):
+                    df = b.single_def(tt["discr"]["pl"]["l"])
+                    if df and df[2] == "assign" and df[3]["rv"]["k"] == "bin" and df[3]["rv"]["op"] == "Eq" and is_mod(df[3]["rv"]["a"]) \
+                            and df[3]["rv"]["b"].get("int") == 1 and tt["otherwise"] in b.dom()[bb]:
+                        ok = "every code point of the range transforms (modulo == 1 edge)"
+            if ok is None:
+                a = t["args"][1]
+                if a["k"] in ("copy", "move") and aligned(b.root_of(a["pl"]["l"])[0] if not b.local_name(a["pl"]["l"]) else a["pl"]["l"]):
+                    ok = "argument is stride-aligned by construction"
+                elif a["k"] in ("copy", "move"):
+                    # follow one copy to the named variable
+                    d0 = b.single_def(a["pl"]["l"])
+                    if d0 and d0[2] == "assign" and d0[3]["rv"]["k"] == "use" and d0[3]["rv"]["op"]["k"] in ("copy", "move") \
+                            and aligned(d0[3]["rv"]["op"]["pl"]["l"]):
+                        ok = "argument is stride-aligned by construction"
+            if ok:
+                r.ok(key, ok)
+            else:
+                r.fail(key, "add_delta is applied to a code point that is not known to satisfy the range's stride predicate (line %s): "
+                            "code points between the folding ones get a bogus image, so a class under /i gains or loses members" % t.get("line"),
+                       facts.loc(fn, t.get("line")))
+    r.floor("add_delta_calls", n, 2)
+    return r
